@@ -28,7 +28,7 @@ import (
 )
 
 type op struct {
-	K string `json:"k"`           // servestart | accept | send | sendheld | release | holdtop | releasetop | finish | clientclose | shutdown | expire
+	K string `json:"k"`           // servestart | accept | acceptheld | releasenew | send | sendidle | sendheld | release | holdtop | releasetop | finish | clientclose | shutdown | expire
 	C int    `json:"c,omitempty"` // index into the candidates (mod their number)
 	N int    `json:"n,omitempty"` // accept: requests already sent
 	B bool   `json:"b,omitempty"` // finish: answer with Connection: close
@@ -57,6 +57,7 @@ type sconn struct {
 	blocked   bool          // a Read is parked waiting for input
 	holdRead  chan struct{} // the next Read that returns data parks before returning
 	readHeld  bool
+	holdNew   chan struct{} // the acceptor parks in the ConnState(StateNew) hook of this connection
 	holdTop   chan struct{} // the next loop-top SetReadDeadline call parks
 	topHeld   bool
 	dlCalls   int
@@ -267,6 +268,7 @@ type crec struct {
 	clientGone bool
 	heldRead   chan struct{}
 	heldTop    chan struct{}
+	heldNew    chan struct{}
 	idleAtSd   bool
 	closedPass bool
 }
@@ -326,6 +328,9 @@ func (rn *runner) holdsCoq() string {
 		}
 		if r.heldTop != nil {
 			items = append(items, hlib.Tuple(n(r.id), "HoldLoopTop"))
+		}
+		if r.heldNew != nil {
+			items = append(items, hlib.Tuple(n(r.id), "HoldAccepted"))
 		}
 	}
 	return hlib.List(items)
@@ -424,10 +429,16 @@ func (rn *runner) do(o op) {
 		go func() { rn.s.Serve(l.ln); l.returned.Store(true); close(l.done) }()
 		rn.rest(t0)
 		rn.emit([]string{"LServeStart"})
-	case "accept":
+	case "accept", "acceptheld":
 		var ks []int
 		for k, l := range rn.loops {
-			if !l.ln.isClosed.Load() {
+			busy := false
+			for _, r := range rn.conns {
+				if r.loop == k && r.heldNew != nil {
+					busy = true
+				}
+			}
+			if !l.ln.isClosed.Load() && !busy {
 				ks = append(ks, k)
 			}
 		}
@@ -446,6 +457,10 @@ func (rn *runner) do(o op) {
 		if o.N >= 2 {
 			rn.pipelined = true
 		}
+		if o.K == "acceptheld" {
+			r.heldNew = make(chan struct{})
+			r.c.holdNew = r.heldNew
+		}
 		rn.mu.Lock()
 		rn.conns = append(rn.conns, r)
 		rn.mu.Unlock()
@@ -457,6 +472,15 @@ func (rn *runner) do(o op) {
 		}
 		rn.rest(t0)
 		rn.emit(ops)
+	case "releasenew":
+		r := rn.pick(func(r *crec) bool { return r.heldNew != nil }, o.C)
+		if r == nil {
+			return
+		}
+		close(r.heldNew)
+		r.heldNew = nil
+		rn.rest(t0)
+		rn.emit(nil)
 	case "send":
 		r := rn.pick(func(r *crec) bool { return !r.clientGone }, o.C)
 		if r == nil {
@@ -608,7 +632,18 @@ func (rn *runner) do(o op) {
 
 func runCase(d desc) hlib.Case {
 	rn := &runner{d: d, kinds: map[string]int{}}
-	rn.s = &fasthttp.Server{Handler: rn.handler, Logger: nopLogger{}, CloseOnShutdown: d.CloseOnShutdown, NoDefaultServerHeader: true}
+	rn.s = &fasthttp.Server{Handler: rn.handler, Logger: nopLogger{}, CloseOnShutdown: d.CloseOnShutdown, NoDefaultServerHeader: true,
+		ConnState: func(c net.Conn, st fasthttp.ConnState) {
+			if sc, ok := c.(*sconn); ok && st == fasthttp.StateNew {
+				sc.mu.Lock()
+				h := sc.holdNew
+				sc.holdNew = nil
+				sc.mu.Unlock()
+				if h != nil {
+					<-h
+				}
+			}
+		}}
 	if d.Deadlines {
 		rn.s.ReadTimeout = time.Hour
 	}
@@ -621,6 +656,8 @@ func runCase(d desc) hlib.Case {
 	// drain: release the seams, let the handlers answer, shut down if that has not happened
 	for i := 0; i < 64 && !rn.stuck; i++ {
 		switch {
+		case rn.pick(func(r *crec) bool { return r.heldNew != nil }, 0) != nil:
+			rn.do(op{K: "releasenew"})
 		case rn.pick(func(r *crec) bool { return r.heldRead != nil }, 0) != nil:
 			rn.do(op{K: "release"})
 		case rn.pick(func(r *crec) bool { return r.heldTop != nil }, 0) != nil:
@@ -652,6 +689,9 @@ func runCase(d desc) hlib.Case {
 		if r.heldTop != nil {
 			close(r.heldTop)
 		}
+		if r.heldNew != nil {
+			close(r.heldNew)
+		}
 		select {
 		case r.cmd <- true:
 		default:
@@ -680,7 +720,7 @@ func ops(s string) []op {
 		o := op{K: parts[0]}
 		if len(parts) > 1 {
 			switch o.K {
-			case "accept":
+			case "accept", "acceptheld":
 				o.N, _ = strconv.Atoi(parts[1])
 			case "finish":
 				o.B = parts[1] == "close"
@@ -705,6 +745,10 @@ func corpus() []desc {
 		{Class: "basic", CloseOnShutdown: true, Ops: ops("servestart accept:1 accept:1 shutdown finish finish")},
 		{Class: "basic", Ops: ops("servestart servestart accept:1 accept:1 finish:close shutdown finish")},
 		{Class: "basic", Ops: ops("shutdown")},
+		// the acceptor holds a connection it has not yet counted in s.open when Shutdown is called: Shutdown must wait for it (s.serving)
+		{Class: "heldnew", Ops: ops("servestart acceptheld:1 shutdown releasenew finish")},
+		{Class: "heldnew", Ops: ops("servestart accept:1 finish acceptheld:1 shutdown releasenew finish")},
+		{Class: "heldnew", Ops: ops("servestart servestart accept:1 acceptheld:0 shutdown finish releasenew")},
 		// the context expires while a handler runs: an error is returned, the stop flag is reset, the connection goes on
 		{Class: "expire", Ops: ops("servestart accept:1 shutdown expire finish send finish:close")},
 		// clients that go away
@@ -733,7 +777,7 @@ func corpus() []desc {
 }
 
 func gen(r *rand.Rand, i int) desc {
-	class := hlib.Pick(r, []string{"basic", "basic", "basic", "client", "expire", "holdtop", "heldread", "pipelined", "pipetop"})
+	class := hlib.Pick(r, []string{"basic", "basic", "basic", "client", "expire", "holdtop", "heldread", "pipelined", "pipetop", "heldnew"})
 	d := desc{Class: class, Deadlines: r.Intn(3) == 0, CloseOnShutdown: r.Intn(4) == 0}
 	if class == "holdtop" || class == "pipetop" {
 		d.Deadlines = true
@@ -787,6 +831,12 @@ func gen(r *rand.Rand, i int) desc {
 				d.Ops = append(d.Ops, op{K: "releasetop", C: r.Intn(4)})
 			case "expire":
 				d.Ops = append(d.Ops, op{K: "expire"})
+			case "heldnew":
+				if r.Intn(2) == 0 {
+					d.Ops = append(d.Ops, op{K: "acceptheld", N: r.Intn(2), C: r.Intn(2)})
+				} else {
+					d.Ops = append(d.Ops, op{K: "releasenew", C: r.Intn(2)})
+				}
 			default:
 				d.Ops = append(d.Ops, op{K: "accept", N: 1, C: r.Intn(2)})
 			}
